@@ -318,7 +318,12 @@ class C07Runner:
 		for attempt in range(2 if st.get('twice') else 1):
 			# torn at an offset = a crash while the editor was saving; second attempt = same file, warm cache
 			# (a text that imports its own module names it __main__ at the terminal and src.zz_damaged on disk)
-			proj.sc.write('src/zz_damaged.py', (st['text'].replace('__main__', module) + '\n').encode('utf-8', 'replace'), stamp)
+			data = (st['text'].replace('__main__', module) + '\n').encode(st.get('encoding', 'utf-8'), 'replace')
+			if st.get('bad_byte_at') is not None:
+				# a byte that can never appear in UTF-8 (flipped bit on disk / file saved in another encoding)
+				at = int(st['bad_byte_at'] * len(data))
+				data = data[:at] + bytes([st.get('bad_byte', 0xE9)]) + data[at:]
+			proj.sc.write('src/zz_damaged.py', data, stamp)
 			rec = sim_process(proj.sc.root, disk_task(module, self.pool['modules'] + [module], st.get('mode', 'load'), None), timeout=120)
 			self.processes += 1
 			if rec['status'] == 'timeout':
@@ -342,7 +347,7 @@ class C07Runner:
 				re_ = r.get('render_error') or {}
 				self.violation('error-rendering-fails', k, {'error': e['cls'], 'render_error': {kk: re_.get(kk) for kk in ('cls', 'site', 'msg')}}, site_sig=f"render:{re_.get('cls')}@{re_.get('site')}")
 			# unparsable text must be Errors.Syntax on both paths: compare with what the in-memory path said for the same text
-			mem = self.memory_class(proj, init, st['text'])
+			mem = None if (st.get('bad_byte_at') is not None or st.get('encoding')) else self.memory_class(proj, init, st['text'])
 			if e.get('is_syntax') and mem not in ('Syntax', None):
 				self.violation('syntax-error-on-disk-but-not-in-memory', k, {'memory': mem, 'text': st['text'][:300]}, site_sig=f'memory:{mem}')
 
@@ -408,6 +413,8 @@ class C07(Engine):
 				steps += [{'kind': 'ill-typed', 'text': t}, {'kind': 'disk', 'text': t, 'mode': 'load'}]
 			steps.append(V(base[2]))
 			cases.append({'pool': pool, 'steps': steps})
+		cases.append({'pool': pool, 'steps': [V(base[0]), {'kind': 'disk', 'text': "def f(k: int) -> int:\n\ts = 'caf\u00e9'\n\treturn k", 'encoding': 'latin-1', 'mode': 'load', 'twice': True},
+			{'kind': 'disk', 'text': base[1], 'bad_byte_at': 0.5, 'bad_byte': 0xFF, 'mode': 'runner'}, {'kind': 'disk', 'text': base[2], 'bad_byte_at': 0.0, 'bad_byte': 0xC3, 'mode': 'load'}, V(base[0])]})
 		cases.append({'pool': pool, 'steps': [{'kind': 'disk', 'text': 'def f(k: int) -> int:\n\treturn (k +', 'mode': 'runner', 'twice': True}, {'kind': 'disk', 'text': 'class A:\n\tdef m(self) -> int:\n\t\treturn 1\n\ndef m2(self, k: int) -> int:\n\treturn self.k', 'mode': 'load'}, V(base[0])]})
 		return cases
 
@@ -433,6 +440,8 @@ class C07(Engine):
 				c = rng.choice(kinds)
 				if rng.random() < 0.3:
 					steps.append({'kind': 'disk', 'text': rng.choice(corpus.ILL_TYPED), 'mode': rng.choice(['load', 'runner']), 'twice': rng.random() < 0.3})
+				elif rng.random() < 0.2:
+					steps.append({'kind': 'disk', 'text': rng.choice(base), 'bad_byte_at': round(rng.random(), 4), 'bad_byte': rng.choice([0xE9, 0xFF, 0xC3, 0x80, 0xF8]), 'mode': rng.choice(['load', 'runner']), 'twice': rng.random() < 0.3})
 				else:
 					src = rng.choice(base + [pool['variants'][m][0]['src'].rstrip('\n') for m in pool['modules']])
 					steps.append({'kind': 'disk', 'corruption': c, 'text': corrupt(src, c, rng), 'mode': rng.choice(['load', 'load', 'runner']), 'twice': rng.random() < 0.3})
